@@ -220,6 +220,13 @@ def interval(e):
     return None
 
 
+RETRY_CONSTRUCTORS = ("futures_util::stream::repeat::repeat", "StreamExt::throttle", "StreamExt::take", "Duration::from_secs",
+                      "Duration::from_millis", "Duration::from_secs_f32", "Duration::from_secs_f64", "Duration::new",
+                      "futures_util::stream::iter::iter", "futures_util::stream::once::once", "IntervalStream::new",
+                      "tokio::time::interval::interval", "StreamExt::fuse", "core::iter::traits::collect::IntoIterator::into_iter",
+                      "core::convert::From::from", "core::convert::Into::into")
+
+
 def budgets(chk, crate):
     n = 0
     for b in client_bodies(crate):
@@ -237,6 +244,22 @@ def budgets(chk, crate):
                 chk.require(good, "C10-b/finite-retries", where,
                             "the retry stream is %s: not bounded by take(n) with a positive constant" % show(retry)[:120],
                             "take(%s)" % (takes[0][2][1][1] if takes else "?"), t.get("sp"))
+                # ... and the pause between two attempts is a constant: the stream is assembled from the known constructors
+                # (repeat / throttle(const) / take(const) ...).  A computed pause (a back-off series, a sleep per item) is
+                # not bounded by this rule and is reported - `min` and `max` of a cap differ by one word
+                unknown = []
+                for x in walk(retry):
+                    if x[0] == "call" and not str(x[1]).endswith(RETRY_CONSTRUCTORS):
+                        unknown.append(str(x[1]).rsplit("::", 2)[-2:] and "::".join(str(x[1]).rsplit("::", 2)[-2:]))
+                    if x[0] == "call" and str(x[1]).endswith("StreamExt::throttle"):
+                        d_ok, d_why = duration_positive(crate, x[2][1])
+                        if not d_ok:
+                            unknown.append("throttle(%s)" % d_why[:40])
+                    if x[0] == "agg" and "closure" in str(x[1]):
+                        unknown.append("closure")
+                chk.require(not unknown, "C10-b/bounded-pause", where,
+                            "the retry stream is built with %s: the pause between attempts is computed, so 20 attempts are not "
+                            "bounded by 20 constant pauses" % sorted(set(unknown))[:5], "repeat(()).throttle(const).take(n)", t.get("sp"))
                 ok, why = duration_positive(crate, ex.operand(t["args"][3]))
                 chk.require(ok, "C10-b/timeout-positive", where, "per-packet timeout may be zero or is unknown: " + why, why, t.get("sp"))
             if n_ == TIMEOUT_FN:
